@@ -10,7 +10,7 @@
 //!   the three sources side by side (C09).
 //! * `sdepth <cfg> <src> <calls> <d1> <k1> <d2> <k2> => history` — a stream of two items nested `d1` / `d2`
 //!   deep (bracket mix `k`), histories as in `stream` (C14: the depth budget is restored between items).
-//! * `spfx <cfg> <tgt> <src> <calls> <hex> => h_0;h_1;…;h_n` — the stream history over every prefix (C10).
+//! * `spfx <cfg> <tgt> <src> <calls> <hex> => h_0/h_1/…/h_n` — the stream history over every prefix (C10).
 #![allow(dead_code)]
 use crate::common::*;
 use crate::gen::*;
@@ -325,8 +325,52 @@ pub mod raw {
         }
     }
 
+    /// `Box<RawValue>` from the three sources: `R<hex text>` or the error
+    pub fn raw3_obs(b: &[u8], sizes: Vec<usize>) -> String {
+        let show = |r: serde_json::Result<Box<RawValue>>| match r { Ok(x) => format!("R{}", hexf(x.get().as_bytes())), Err(e) => show_err(&e) };
+        let s = match std::str::from_utf8(b) { Ok(s) => g(|| show(serde_json::from_str::<Box<RawValue>>(s))), Err(_) => "-".into() };
+        format!("{}|{}|{}", s, g(|| show(serde_json::from_slice::<Box<RawValue>>(b))), g(|| show(serde_json::from_reader::<_, Box<RawValue>>(Chunked::new(b, sizes)))))
+    }
+    pub fn emit_raw3(sink: &mut Sink, cfg: &str, b: &[u8], r: &mut Rng, tag: &str) {
+        let o = raw3_obs(b, chunk_sizes(r));
+        let m = o.split('|').nth(1).unwrap_or("");
+        let class = if m.starts_with('R') { "captured" } else if m.contains(":eof:") { "eof" } else { "syntax" };
+        sink.case("raw3", &[cfg, &hexf(b)], &o, &format!("raw3:{}:{}", tag, class), b.len() > 1);
+    }
+    pub fn run_c09(sink: &mut Sink, thorough: bool, seed: u64) {
+        let mut r = Rng::new(seed ^ 0x5eed_0919);
+        let cfg = cfg_tag();
+        for s in [" 1 ", "\n[1, 2]\t", "  \"a\\u00e9\"  ", "{\"a\" : [ ] }", " 1 2", "1e999", "\"\\ud800\"", "\n\n [1,\n", "\"\u{e9}\" x", "[\"\u{e9}\",\n\"\u{1f600}\"]\n\nx"] {
+            emit_raw3(sink, &cfg, s.as_bytes(), &mut r, "corpus");
+        }
+        emit_raw3(sink, &cfg, b" \"\xff\" ", &mut r, "corpus");
+        emit_raw3(sink, &cfg, b"[1, \"\xc3\"]\n x", &mut r, "corpus");
+        let toks = tokens();
+        for len in 1..=(if thorough { 3 } else { 2 }) {
+            let mut inputs: Vec<Vec<u8>> = vec![];
+            exhaustive(&toks, len, 0, 1, |b| inputs.push(b.to_vec()));
+            for b in inputs { emit_raw3(sink, &cfg, &b, &mut r, &format!("exh{}", len)); }
+        }
+        for _ in 0..(if thorough { 8000 } else { 800 }) {
+            let mut d = gen_doc(&mut r, 3);
+            for b in d.iter_mut() { if *b == b' ' && r.chance(1, 2) { *b = b'\n'; } }
+            emit_raw3(sink, &cfg, &d, &mut r, "doc");
+            for _ in 0..3 { let m = mutate(&d, &mut r); emit_raw3(sink, &cfg, &m, &mut r, "mut"); }
+            let a = gen_array(&mut r);
+            emit_nest(sink, &cfg, "arr", &a, &mut r, "doc");
+            for _ in 0..2 { let m = mutate(&a, &mut r); emit_nest(sink, &cfg, "arr", &m, &mut r, "mut"); }
+            let o = gen_object(&mut r);
+            emit_nest(sink, &cfg, "obj", &o, &mut r, "doc");
+            for _ in 0..2 { let m = mutate(&o, &mut r); emit_nest(sink, &cfg, "obj", &m, &mut r, "mut"); }
+        }
+    }
+
     pub fn replay(sink: &mut Sink, toks: &[&str]) {
         match toks[0] {
+            "raw3" if toks.len() >= 3 => {
+                let b = unhex(toks[2]);
+                sink.case("raw3", &[&cfg_tag(), toks[2]], &raw3_obs(&b, vec![1]), "replay", true);
+            }
             "rawser" if toks.len() >= 3 => {
                 let p = dec_rprog(toks[2]);
                 let fmt: Option<Vec<u8>> = if toks[1] == "c" { None } else { Some(unhex(&toks[1][1..])) };
@@ -343,10 +387,195 @@ pub mod raw {
     }
 }
 
+// ------------------------------------------------------------------------------------------------ streams
+
+use serde::de::IgnoredAny;
+use serde_json::{Deserializer, StreamDeserializer, Value};
+
+fn item_value(r: Option<serde_json::Result<Value>>) -> (String, bool) {
+    match r { None => ("N".into(), false), Some(Ok(v)) => (format!("V{}", enc(&v)), false), Some(Err(e)) => (show_err(&e), true) }
+}
+fn item_ignored(r: Option<serde_json::Result<IgnoredAny>>) -> (String, bool) {
+    match r { None => ("N".into(), false), Some(Ok(_)) => ("U".into(), false), Some(Err(e)) => (show_err(&e), true) }
+}
+/// `calls` calls of next(), byte_offset() after each (format of op `stream`: after an error `N` without offset)
+fn hist<'de, R: serde_json::de::Read<'de>, T: serde::Deserialize<'de>>(mut s: StreamDeserializer<'de, R, T>,
+        show: fn(Option<serde_json::Result<T>>) -> (String, bool), calls: usize) -> String {
+    let mut out: Vec<String> = vec![];
+    let mut after_err = false;
+    for _ in 0..calls {
+        let (o, is_err) = show(s.next());
+        let off = s.byte_offset();
+        if o == "N" && after_err { out.push("N".into()); } else { out.push(format!("{}@{}", o, off)); }
+        if is_err { after_err = true; }
+    }
+    out.join(",")
+}
+/// one source's history; `nolimit`: `disable_recursion_limit()` (feature ud)
+pub fn history(tgt: &str, src: &str, b: &[u8], calls: usize, sizes: Vec<usize>, nolimit: bool) -> String {
+    let _ = nolimit;
+    macro_rules! go { ($de:expr) => {{
+        #[allow(unused_mut)]
+        let mut de = $de;
+        #[cfg(feature = "ud")]
+        { if nolimit { de.disable_recursion_limit(); } }
+        if tgt == "value" { hist(de.into_iter::<Value>(), item_value, calls) } else { hist(de.into_iter::<IgnoredAny>(), item_ignored, calls) }
+    }}; }
+    g(|| match src {
+        "str" => match std::str::from_utf8(b) { Ok(s) => go!(Deserializer::from_str(s)), Err(_) => "-".into() },
+        "slice" => go!(Deserializer::from_slice(b)),
+        _ => go!(Deserializer::from_reader(Chunked::new(b, sizes))),
+    })
+}
+
+fn hclass(o: &str) -> &'static str { if o.contains(":syntax:") { "syntax" } else if o.contains(":eof:") { "eof" } else if o.contains("PANIC") { "panic" } else { "clean" } }
+
+pub fn emit_stream3(sink: &mut Sink, cfg: &str, b: &[u8], calls: usize, r: &mut Rng, tag: &str) {
+    for tgt in ["value", "ignored"] {
+        let sizes = chunk_sizes(r);
+        let o = format!("{}|{}|{}", history(tgt, "str", b, calls, vec![], false), history(tgt, "slice", b, calls, vec![], false), history(tgt, "reader", b, calls, sizes, false));
+        sink.case("stream3", &[cfg, tgt, &calls.to_string(), &hexf(b)], &o, &format!("stream3:{}:{}:{}", tag, tgt, hclass(o.split('|').nth(1).unwrap_or(""))), b.len() > 1);
+    }
+}
+
+const STREAM_CORPUS: &[&str] = &["", " ", "1", "1 ", "1 2", "12 3", "1x", "1,2", "[1][2]", "[0] [1] [", "{\"k\": 3}1\"cool\"\"stuff\" 3{}  [0, 1, 2]", "true false", "truefalse", "nullnull",
+    "null[]", "\"a\"\"b\"", "1\"a\"", "1.5e3 ", "-", "1e", "\"\\u12", "\"\\ud800", "\"\\ud800\\u", "[1,", "{\"a\"", "1]", "1}", "1:", "tru", "truex", "0 1 2 3 4 5 6", "\n1\n2\n",
+    "1e999 2", "[1e999] 2", "\"\\ud800\" 1", "1/2", "1-2", "1+2", "1.2.3", "1e5e5", "[] x", "x", "\"\u{e9}\"\n\"\u{e9}\u{1f600}\" \n x", "[\n1,\n2]\n\n[3", "1\n\n2\n\n\u{1}"];
+
+fn gen_stream(r: &mut Rng) -> (Vec<u8>, usize) {
+    let k = 1 + r.below(4);
+    let mut s: Vec<u8> = vec![];
+    for i in 0..k {
+        let mut v = vec![]; gen_doc_into(r, 2, &mut v);
+        if i > 0 || r.chance(1, 3) { match r.below(5) { 0 => {}, 1 => s.push(b' '), 2 => s.push(b'\n'), 3 => s.extend_from_slice(b"\r\n"), _ => s.extend_from_slice(b" \t") } }
+        s.extend_from_slice(&v);
+    }
+    if r.chance(1, 3) { s.push(*r.pick(&[b' ', b'\n'])); }
+    (s, k)
+}
+
+/// C09: whole histories from the three sources side by side (random chunkings), and raw captures
+pub fn run_c09(sink: &mut Sink, thorough: bool, seed: u64) {
+    let mut r = Rng::new(seed ^ 0x5eed_09);
+    let cfg = cfg_tag();
+    for s in STREAM_CORPUS { emit_stream3(sink, &cfg, s.as_bytes(), 5, &mut r, "corpus"); }
+    emit_stream3(sink, &cfg, b"1 \"\xff\" 2", 4, &mut r, "corpus");
+    emit_stream3(sink, &cfg, b"[\"\xc3\"] 2", 4, &mut r, "corpus");
+    let toks = tokens();
+    for len in 1..=(if thorough { 3 } else { 2 }) {
+        let mut inputs: Vec<Vec<u8>> = vec![];
+        exhaustive(&toks, len, 0, 1, |b| inputs.push(b.to_vec()));
+        for b in inputs { emit_stream3(sink, &cfg, &b, len + 3, &mut r, &format!("exh{}", len)); }
+    }
+    for _ in 0..(if thorough { 6000 } else { 600 }) {
+        let (s, k) = gen_stream(&mut r);
+        emit_stream3(sink, &cfg, &s, k + 3, &mut r, "concat");
+        if r.chance(1, 2) && !s.is_empty() { let cut = r.below(s.len()); emit_stream3(sink, &cfg, &s[..cut], k + 3, &mut r, "truncated"); }
+        for _ in 0..2 { let m = mutate(&s, &mut r); emit_stream3(sink, &cfg, &m, k + 3, &mut r, "corrupted"); }
+    }
+    #[cfg(feature = "rv")]
+    raw::run_c09(sink, thorough, seed);
+}
+
+// ------------------------------------------------------------------------------------------------ C14: sdepth
+
+/// `d` containers around `1`: mix 0 = arrays, 1 = objects, 2 = alternating
+pub fn nested(d: usize, mix: usize) -> Vec<u8> {
+    let mut open = vec![]; let mut close = vec![];
+    for i in 0..d {
+        let obj = match mix { 0 => false, 1 => true, _ => i % 2 == 0 };
+        if obj { open.extend_from_slice(b"{\"a\":"); close.insert(0, b'}'); } else { open.push(b'['); close.insert(0, b']'); }
+    }
+    let mut doc = open; doc.push(b'1'); doc.extend_from_slice(&close); doc
+}
+
+pub fn emit_sdepth(sink: &mut Sink, cfg: &str, tgt: &str, src: &str, d1: usize, k1: usize, sep: &[u8], d2: usize, k2: usize, nolimit: bool) {
+    let mut doc = nested(d1, k1); doc.extend_from_slice(sep); doc.extend_from_slice(&nested(d2, k2));
+    let doc2 = doc.clone(); let tgt2 = tgt.to_string(); let src2 = src.to_string();
+    // deep recursion with the limit disabled needs a big stack
+    let o = std::thread::Builder::new().stack_size(256 << 20).spawn(move || history(&tgt2, &src2, &doc2, 4, vec![3, 1, 2], nolimit)).unwrap().join().unwrap_or("PANIC".into());
+    let cfgs = if nolimit { format!("{}+nolimit", cfg) } else { cfg.to_string() };
+    let class = |d: usize| if d > 127 { "deep" } else if d == 127 { "max" } else { "ok" };
+    sink.case("sdepth", &[&cfgs, tgt, src, "4", &d1.to_string(), &k1.to_string(), &hexf(sep), &d2.to_string(), &k2.to_string()], &o,
+        &format!("sdepth:{}:{}:{}-{}", tgt, if nolimit { "nolimit" } else { "limit" }, class(d1), class(d2)), true);
+}
+
+pub fn run_c14(sink: &mut Sink, thorough: bool, seed: u64) {
+    let mut r = Rng::new(seed ^ 0x5eed_14);
+    let cfg = cfg_tag();
+    let depths: &[usize] = &[0, 1, 2, 126, 127, 128, 129, 200];
+    for &d1 in depths { for &d2 in depths {
+        if !thorough && d1 < 126 && d2 < 126 && !(d1 == 1 && d2 == 1) { continue; }
+        for (k1, k2) in [(0usize, 0usize), (1, 1), (2, 0), (0, 2)] {
+            for src in ["str", "slice", "reader"] {
+                for tgt in ["value", "ignored"] {
+                    if tgt == "ignored" && (k1, k2) != (0, 0) && !thorough { continue; }
+                    let sep: &[u8] = *r.pick(&[&b" "[..], b"", b"\n", b" \t "]);
+                    emit_sdepth(sink, &cfg, tgt, src, d1, k1, sep, d2, k2, false);
+                    #[cfg(feature = "ud")]
+                    { if d1 >= 127 || d2 >= 127 { emit_sdepth(sink, &cfg, tgt, src, d1, k1, sep, d2, k2, true); } }
+                }
+            }
+        }
+    } }
+}
+
+// ------------------------------------------------------------------------------------------------ C10: spfx
+
+pub fn emit_spfx(sink: &mut Sink, cfg: &str, b: &[u8], calls: usize, r: &mut Rng, tag: &str) {
+    for tgt in ["value", "ignored"] {
+        let src = *r.pick(&["str", "slice", "reader"]);
+        let sizes = chunk_sizes(r);
+        let hs: Vec<String> = (0..=b.len()).map(|k| history(tgt, src, &b[..k], calls, sizes.clone(), false)).collect();
+        let full = hs.last().cloned().unwrap_or_default();
+        sink.case("spfx", &[cfg, tgt, src, &calls.to_string(), &hexf(b)], &hs.join("/"), &format!("spfx:{}:{}:{}:{}", tag, tgt, src, hclass(&full)), b.len() > 1);
+    }
+}
+
+pub fn run_c10(sink: &mut Sink, thorough: bool, seed: u64) {
+    let mut r = Rng::new(seed ^ 0x5eed_10);
+    let cfg = cfg_tag();
+    for s in ["1", "1 2", "12 3", "[1][2]", "[0] [1] [2]", "{\"k\": 3}1\"cool\"\"stuff\" 3{}  [0, 1, 2]", "true false", "null[]", "\"a\"\"b\"", "1\"a\"", "1.5e3 -2E-7\n0",
+              "\"\\u00e9\\ud83d\\ude00\" \"\u{e9}\"", "[[[[]]]]{\"a\":{\"b\":[1,{}]}}", "-0 -1 -1.0 1e5", " \n\t1\r\n", "nul", "1x 2", "[1,] 2"] {
+        emit_spfx(sink, &cfg, s.as_bytes(), 8, &mut r, "corpus");
+    }
+    // the inherent exception: a prefix that is a complete out-of-range number literal (known finding)
+    let big = format!("1{}e-395 2", "0".repeat(400));
+    emit_spfx(sink, &cfg, big.as_bytes(), 3, &mut r, "corpus-range");
+    let toks = tokens();
+    for len in 1..=(if thorough { 3 } else { 2 }) {
+        let mut inputs: Vec<Vec<u8>> = vec![];
+        exhaustive(&toks, len, 0, 1, |b| inputs.push(b.to_vec()));
+        for b in inputs {
+            // only streams that start with a value are informative
+            if history("ignored", "slice", &b, 1, vec![], false).starts_with('U') { emit_spfx(sink, &cfg, &b, len + 2, &mut r, &format!("exh{}", len)); }
+        }
+    }
+    for _ in 0..(if thorough { 3000 } else { 300 }) {
+        let (s, k) = gen_stream(&mut r);
+        emit_spfx(sink, &cfg, &s, k + 2, &mut r, "concat");
+    }
+}
+
 pub fn replay(sink: &mut Sink, toks: &[&str]) {
+    let cfg = cfg_tag();
     match toks[0] {
         #[cfg(feature = "rv")]
-        "rawser" | "rawnest" => raw::replay(sink, toks),
+        "rawser" | "rawnest" | "raw3" => raw::replay(sink, toks),
+        "stream3" if toks.len() >= 5 => {
+            let b = unhex(toks[4]); let calls: usize = toks[3].parse().unwrap_or(4);
+            let o = format!("{}|{}|{}", history(toks[2], "str", &b, calls, vec![], false), history(toks[2], "slice", &b, calls, vec![], false), history(toks[2], "reader", &b, calls, vec![1], false));
+            sink.case("stream3", &[&cfg, toks[2], toks[3], toks[4]], &o, "replay", true);
+        }
+        "sdepth" if toks.len() >= 10 => {
+            let p = |i: usize| toks[i].parse::<usize>().unwrap_or(0);
+            emit_sdepth(sink, &cfg, toks[2], toks[3], p(5), p(6), &unhex(toks[7]), p(8), p(9), toks[1].contains("nolimit"));
+        }
+        "spfx" if toks.len() >= 6 => {
+            let b = unhex(toks[5]); let calls: usize = toks[4].parse().unwrap_or(4);
+            let hs: Vec<String> = (0..=b.len()).map(|k| history(toks[2], toks[3], &b[..k], calls, vec![1], false)).collect();
+            sink.case("spfx", &[&cfg, toks[2], toks[3], toks[4], toks[5]], &hs.join("/"), "replay", true);
+        }
         _ => eprintln!("cannot replay op {}", toks[0]),
     }
 }
